@@ -6,7 +6,8 @@ from props import PROPS
 from manifest_text import TEXT, NOT_APPLICABLE
 V = os.path.dirname(os.path.dirname(os.path.abspath(__file__)))
 checks = []
-for pid in sorted(PROPS):
+CLAIMED = [p for p in sorted(PROPS) if p in TEXT]
+for pid in CLAIMED:
     t = TEXT[pid]
     checks.append(dict(
         property_id=pid,
@@ -26,11 +27,11 @@ m = dict(
                baseline_off_cmd='cd /repo && cargo test --workspace --no-fail-fast --offline',
                source_commits=[], add_only=True),
     engines=[dict(name='lean-model+correspondence', path='/verif/check',
-                  serves_properties=sorted(PROPS),
+                  serves_properties=CLAIMED,
                   kind_free_text='Lean 4 theorems over a hand-written model (lean/SIM), tied to /repo on every run by differential runs of the real code (harness/rt) against the model and the spec predicates (lean driver)')],
     checks=checks,
     notes='Fix commits in /repo: see KNOWN_FINDINGS.json (fixed: entries). DESIGN.md explains every check.',
-    not_applicable=[dict(property_id=p, reason=r) for p, r in sorted(NOT_APPLICABLE.items()) if p not in PROPS],
+    not_applicable=[dict(property_id=p, reason=r) for p, r in sorted(NOT_APPLICABLE.items()) if p not in CLAIMED],
 )
 json.dump(m, open(os.path.join(V, 'MANIFEST.json'), 'w'), indent=1)
 print('claimed', len(checks), 'not_applicable', len(m['not_applicable']))
